@@ -156,4 +156,15 @@ def Export.ref : Export → Ref
   | .symbol r => r
   | .forward r => r
 
+/-- a table of `By` is the `&[]` placeholder of a null table, or `cnt` elements inside the buffer at
+an address aligned for the element type -/
+def Tab.OK (img : Img) (t : Tab) (size : Nat) : Prop :=
+  (t.isStatic = true ∧ t.cnt = 0) ∨ (t.isStatic = false ∧ RefOK img ⟨t.off, size * t.cnt, size⟩)
+
+/-- what `Exports::by` establishes about the three tables it hands to `By` -/
+structure By.WF (y : By) : Prop where
+  fns : Tab.OK y.exp.v.img y.fns 4
+  names : Tab.OK y.exp.v.img y.names 4
+  idx : Tab.OK y.exp.v.img y.idx 2
+
 end Pelite.Exports
